@@ -362,6 +362,7 @@ fn static_checks(
     name: &str,
     program: &Program,
     info: &ProgramRegistryInfo,
+    metadata: &Metadata,
     casm: &CairoProgram,
     gas: bool,
     failures: &mut Vec<String>,
@@ -399,6 +400,29 @@ fn static_checks(
         let instrs = &casm.instructions[si.instruction_idx..next_idx];
         let is_call = matches!(lf, CoreConcreteLibfunc::FunctionCall(_) | CoreConcreteLibfunc::CouponCall(_));
         let is_gas = matches!(lf, CoreConcreteLibfunc::Gas(_) | CoreConcreteLibfunc::Coupon(_));
+        // coupons are pre-paid calls: buying one must charge at least the callee's entry cost (every
+        // token), refunding one may return at most that
+        if gas {
+            use cairo_lang_sierra::extensions::coupon::CouponConcreteLibfunc;
+            if let CoreConcreteLibfunc::Coupon(c) = lf {
+                let (f, sign) = match c {
+                    CouponConcreteLibfunc::Buy(b) => (&b.function.id, 1i64),
+                    CouponConcreteLibfunc::Refund(b) => (&b.function.id, -1i64),
+                };
+                if let (Some(fc), Some(ch)) = (metadata.gas_info.function_costs.get(f), dbg.result_branch_changes.first()) {
+                    for t in TOKENS.iter() {
+                        let declared = ch.gas_cost.get(t).copied().unwrap_or(0);
+                        let callee = fc.get(t).copied().unwrap_or(0);
+                        if declared < sign * callee {
+                            fail(format!(
+                                "libfunc_cost_ok: #{i} {}: declared {:?} cost {} but the callee's entry cost is {} (a coupon is a pre-paid call)",
+                                inv.libfunc_id, t, declared, callee
+                            ));
+                        }
+                    }
+                }
+            }
+        }
         let Some(exits) = statement_paths(instrs, si.start_offset, si.end_offset) else {
             counts.2 += 1;
             continue;
@@ -731,7 +755,7 @@ fn main() {
         let _ = &o.detail;
         if let Some((info, metadata, casm, gas)) = &o.accepted {
             if !is_mutant {
-                static_checks(&name, program, info, casm, *gas, static_failures, static_counts);
+                static_checks(&name, program, info, metadata, casm, *gas, static_failures, static_counts);
             } else {
                 let nm = name.clone();
                 dup_drop_check(program, info, &mut |what: String| {
